@@ -49,9 +49,13 @@ type c03Case struct {
 func init() {
 	engine.Register(&engine.Check{
 		ID: "C03", Level: "fault_enumeration",
-		Rule: "corpus = universe U in XY/XYZ/XYM/XYZM + collections (mixed layouts, empty members, nesting) + 14 large geometries whose coordinate arrays straddle 512/1024 floats and 4/8/64 KiB x {NDR,XDR} x {WKB default, WKB NaN mode, EWKB} x top-level SRID in {0,1,4326,2^31-1,2^31,2^32-1} + special-float sweep; bytes compared with an independent reference encoder, decode compared with the model (carve-outs computed); hex and SQL wrappers; Read over a fault-injecting reader on enc(g1)||enc(g2): all answer sequences with <=1 (quick) / <=2 (thorough) non-default answers from {all, 1 byte, all-but-one, data+EOF}, and ALL chunk compositions for encodings <= 22 bytes; Write over a fault-injecting writer: every Write call index x {fail, short write}. distinct_nontrivial = distinct (case) tuples with at least one coordinate Also: a point nested 10..1000 (thorough 5000) collections deep; every NaN pattern of a point (each ordinate from canonical/payload/negative NaN and an ordinary value) stand-alone, as multipoint member and inside nested collections; every query / in-place change / query history of length <=3 (thorough 4) on live geometries and collections (incl. a point pushed into a nested, possibly still empty, collection after the outer one was encoded): the bytes must be the reference encoding of the geometry as it is now; two-step histories in which the bytes returned by Marshal and by the SQL Value() methods are kept while shorter and longer geometries are encoded, then compared again. Round 7: the reader exploration also with the case geometry LAST in the stream, and data delivered together with io.EOF after the fully enumerated first geometry. Round 8: the reader schedules again behind a reader with a failing Seek method and behind bufio.Readers of 16 and 4096 bytes. Round 9: the writer exploration again with one-off faults (later Write calls succeed); one SQL wrapper scanned into twice (the rows loop). Round 10: every value of the last byte of an encoding (256 values in the lowest mantissa byte and in the sign/exponent byte of the last ordinate) through Unmarshal, hex and every SQL wrapper; polygons with 65536, 65537, 70001 rings and multi-geometries / collections with 65537 members. Round 11: after every failed write the geometry is encoded again and compared with its encoding before the write (a fresh geometry per execution).",
+		Rule: "corpus = universe U in XY/XYZ/XYM/XYZM + collections (mixed layouts, empty members, nesting) + 14 large geometries whose coordinate arrays straddle 512/1024 floats and 4/8/64 KiB x {NDR,XDR} x {WKB default, WKB NaN mode, EWKB} x top-level SRID in {0,1,4326,2^31-1,2^31,2^32-1} + special-float sweep; bytes compared with an independent reference encoder, decode compared with the model (carve-outs computed); hex and SQL wrappers; Read over a fault-injecting reader on enc(g1)||enc(g2): all answer sequences with <=1 (quick) / <=2 (thorough) non-default answers from {all, 1 byte, all-but-one, data+EOF}, and ALL chunk compositions for encodings <= 22 bytes; Write over a fault-injecting writer: every Write call index x {fail, short write}. distinct_nontrivial = distinct (case) tuples with at least one coordinate Also: a point nested 10..1000 (thorough 5000) collections deep; every NaN pattern of a point (each ordinate from canonical/payload/negative NaN and an ordinary value) stand-alone, as multipoint member and inside nested collections; every query / in-place change / query history of length <=3 (thorough 4) on live geometries and collections (incl. a point pushed into a nested, possibly still empty, collection after the outer one was encoded): the bytes must be the reference encoding of the geometry as it is now; two-step histories in which the bytes returned by Marshal and by the SQL Value() methods are kept while shorter and longer geometries are encoded, then compared again. Round 7: the reader exploration also with the case geometry LAST in the stream, and data delivered together with io.EOF after the fully enumerated first geometry. Round 8: the reader schedules again behind a reader with a failing Seek method and behind bufio.Readers of 16 and 4096 bytes. Round 9: the writer exploration again with one-off faults (later Write calls succeed); one SQL wrapper scanned into twice (the rows loop). Round 10: every value of the last byte of an encoding (256 values in the lowest mantissa byte and in the sign/exponent byte of the last ordinate) through Unmarshal, hex and every SQL wrapper; polygons with 65536, 65537, 70001 rings and multi-geometries / collections with 65537 members. Round 11: after every failed write the geometry is encoded again and compared with its encoding before the write (a fresh geometry per execution). Round 12: nothing is refused under the package's default settings - a multi-line with 2^20+1 members round-tripped, and count prefixes of 2^16+1..2^28+1 members for every multi-part type may run out of input but not be called too large.",
 		Run:  c03Run,
 		Replay: func(c *engine.Ctx, kind string, raw json.RawMessage) {
+			if kind == "c03prefix" {
+				c03Prefix(c, decodeCase[c03PrefixCase](raw))
+				return
+			}
 			if kind == "c03-history" {
 				replayLive(c, kind, "history", decodeCase[liveCase](raw), c03LiveQuery)
 				return
@@ -63,6 +67,31 @@ func init() {
 			"Reference encoder ref.EncodeWKB written from the ISO WKB / PostGIS EWKB format descriptions",
 		},
 	})
+}
+
+// c03PrefixCase: the beginning of an encoding (up to the first count) decoded under the package's
+// default settings.
+type c03PrefixCase struct {
+	Hex string `json:"hex"`
+	Ext bool   `json:"ext"`
+}
+
+func c03Prefix(c *engine.Ctx, cs c03PrefixCase) {
+	head, _ := hex.DecodeString(cs.Hex)
+	var err error
+	if pn, _ := engine.Guard(func() {
+		if cs.Ext {
+			_, err = ewkb.Unmarshal(head)
+		} else {
+			_, err = wkb.Unmarshal(head)
+		}
+	}); pn != nil {
+		err = fmt.Errorf("panic: %v", pn)
+	}
+	var tl wkbcommon.ErrGeometryTooLarge
+	if err == nil || errors.As(err, &tl) || strings.HasPrefix(err.Error(), "panic") {
+		c.Violate("default-limits/"+cs.Hex[2:10], fmt.Sprintf("under the package's default settings the first bytes %s of an encoding give %v (ewkb=%v): no geometry with that many elements can be decoded, although it can be encoded", cs.Hex, err, cs.Ext), "c03prefix", cs)
+	}
 }
 
 func bo(xdr bool) binary.ByteOrder {
@@ -746,6 +775,39 @@ func c03Run(c *engine.Ctx) {
 			for _, ext := range []bool{false, true} {
 				c.Count("counts_beyond_2_16", 1)
 				c03Exec(c, c03Case{Mode: "bytes", G: g, Ext: ext, XDR: n%2 == 0}, nil)
+			}
+		}
+	}
+	// (3d) no size of geometry is refused under the package's own settings: a multi-line with
+	// 2^20+1 members really encoded and decoded, and - a decoder refuses a count when it reads it,
+	// before the members - the first 9 bytes of the encoding of a multipoint, multi-line,
+	// multipolygon and collection with 2^16+1 .. 2^28+1 members (and of a line and a polygon with up
+	// to 2^22+1 positions / rings): the decoder may run out of input, it may not call the
+	// geometry too large - if it does, the complete encoding with that beginning is refused as well.
+	{
+		c.Count("counts_beyond_2_16", 1)
+		c03Exec(c, c03Case{Mode: "bytes", G: ref.NewParts(ref.MultiLineString, geom.XY, make([]int, 1<<20+1), ref.Counter())}, nil)
+		for _, ext := range []bool{false, true} {
+			for _, xdr := range []bool{false, true} {
+				for typ := uint32(2); typ <= 7; typ++ {
+					for _, e := range []uint{16, 20, 22, 24, 26, 28} {
+						if typ <= 3 && e > 22 {
+							continue // lines and polygons reserve room for the count they read
+						}
+						n := uint32(1)<<e + 1
+						head := make([]byte, 9)
+						if xdr {
+							binary.BigEndian.PutUint32(head[1:], typ)
+							binary.BigEndian.PutUint32(head[5:], n)
+						} else {
+							head[0] = 1
+							binary.LittleEndian.PutUint32(head[1:], typ)
+							binary.LittleEndian.PutUint32(head[5:], n)
+						}
+						c.Count("forged_count_prefixes", 1)
+						c03Prefix(c, c03PrefixCase{Hex: hex.EncodeToString(head), Ext: ext})
+					}
+				}
 			}
 		}
 	}
